@@ -442,6 +442,31 @@ def check(case, ctx):
         ctx.finding('sweeten', _diff_kind(sw, want),
                     'sweeten calls (defined in, cls): %s\n  expected: %s\n  %s' % (sw, want, desc()))
         return
+    # a second dump function that knows only the classes from Kj upwards: a
+    # base registered elsewhere is not a registered ancestor *for this function*
+    lo = min(o['cls'] for o in case['objs'])
+    if lo >= 1 and case['position'] != 'attr':
+        j = lo
+        part = [m.classes['K%d' % i] for i in range(j, case['depth'])]
+        m.reset()
+        try:
+            yatiml.dumps_function(*part)(value)
+        except Exception as e:
+            ctx.finding('dump', 'partial_registration_raises:' + exc_signature(e),
+                        'dumps_function(%s) raised %s: %s\n  %s'
+                        % ([c.__name__ for c in part], type(e).__name__, e, desc()))
+            return
+        sw2 = [e[1] for e in m.log if e[0] == 'sweeten']
+        want2 = []
+        for o in case['objs']:
+            want2.extend(n for n in chain(case, o['cls'], 'sweeten') if int(n[1:]) >= j)
+        ctx.count('partial_registration_dumps')
+        if sw2 != want2:
+            ctx.finding('sweeten', 'partial_registration:' + _diff_kind([(a, a) for a in sw2], [(a, a) for a in want2]),
+                        'dumps_function registering only %s: sweeten calls %s, by the rule %s '
+                        '(classes below K%d are not registered with this function)\n  %s'
+                        % ([c.__name__ for c in part], sw2, want2, j, desc()))
+            return
     for e in dlog:
         if e[0] == 'sweeten' and not e[3].startswith('m{s:str:p0=' if e[1] != 'W' else 'm{s:str:x='):
             ctx.finding('sweeten', 'node_not_built_from_attributes',
